@@ -39,6 +39,13 @@ def variants(case, sb, g, out, drv, key, thorough):
     if case.get('output') != 'nested':
         r1 = T.run_real(sb.dir, case, variant='twice'); r2 = T.run_real(sb.dir, case, variant='twice')
         out.traces_validated += 2; differs(r2, 'repeating the run')
+    # (f) the same input named differently on the command line (absolute, relative, '.', '<sub>/..')
+    for sp in (['abs', 'rel', 'dot', 'updir'] if inp['kind'] == 'dir' else ['abs', 'rel']):
+        if sp == inp.get('spelled', 'abs') or (sp in ('dot', 'updir') and case.get('output') == 'rel'): continue
+        c4 = copy.deepcopy(case); c4['inputs'][0]['spelled'] = sp
+        r = T.run_real(sb.dir, c4, variant='sp_' + sp)
+        out.traces_validated += 1
+        if differs(r, 'spelling the input path differently (%s instead of %s)' % (sp, inp.get('spelled', 'abs'))): break
     # (e) as part of a longer run: other files documented before and after with the same settings object
     before = dict(kind='file', name='zz_before.cmake', content='#[[[\n# other\n#]]\nfunction(other_b x)\ncmake_parse_arguments(a)\nendfunction()\n')
     after = dict(kind='file', name='zz_after.cmake', content='macro(other_a)\nendmacro()\n')
